@@ -20,7 +20,7 @@ func init() { register(propC10{}) }
 func (propC10) ID() string    { return "C10" }
 func (propC10) Level() string { return "fault_enumeration" }
 func (propC10) Rule() string {
-	return "run indices below the grid size enumerate, exhaustively, 5 fixed trees (3 valid, 2 invalid) x {6 writer entry points x {no fault, error at Write 1/2, short write at Write 1/2}, Save x 5 target situations x {none, EACCES, ENOSPC with 0/50/100% landed, EIO}}; the remaining indices sample trees, histories (1..3 faulted ops) and plans by seed, under seeded map order; distinct = distinct (entry point, tree validity, fault kind, fired?, outcome class); non-trivial = a fault fired or the tree was invalid"
+	return "run indices below the grid size enumerate, exhaustively, 5 fixed trees (3 valid, 2 invalid) x {6 writer entry points x {no fault, error at Write 1/2, short write at Write 1/2, re-entrant writer}, Save x 5 target situations (existing target short and long) x {none, EACCES, ENOSPC with 0/50/100% landed, EIO}}; the remaining indices sample trees, histories (1..3 faulted ops) and plans by seed, under seeded map order; distinct = distinct (entry point, tree validity, fault kind, fired?, outcome class); non-trivial = a fault fired or the tree was invalid"
 }
 func (propC10) Runs(tier string) int {
 	if tier == "thorough" {
@@ -30,9 +30,9 @@ func (propC10) Runs(tier string) int {
 }
 
 var c10EntryPoints = []string{"render", "render_frag", "render_frag_nofile", "render_group", "render_group_nofile", "render_body"}
-var c10WriterPlans = []*WriterPlan{nil, {FailAt: 1, Kind: "err"}, {FailAt: 2, Kind: "err"}, {FailAt: 1, Kind: "short"}, {FailAt: 2, Kind: "short"}}
+var c10WriterPlans = []*WriterPlan{nil, {FailAt: 1, Kind: "err"}, {FailAt: 2, Kind: "err"}, {FailAt: 1, Kind: "short"}, {FailAt: 2, Kind: "short"}, {Reenter: true}}
 var c10Targets = []string{"fresh", "existing", "isdir", "noparent", "parentfile"}
-var c10Injects = []FSPlan{{}, {Inject: "eacces", At: 1}, {Inject: "enospc", At: 1, Part: 0}, {Inject: "enospc", At: 1, Part: 50}, {Inject: "enospc", At: 1, Part: 100}, {Inject: "eio", At: 1, Part: 30}}
+var c10Injects = []FSPlan{{}, {Part: 25}, {Inject: "eacces", At: 1}, {Inject: "enospc", At: 1, Part: 0}, {Inject: "enospc", At: 1, Part: 50}, {Inject: "enospc", At: 1, Part: 100}, {Inject: "eio", At: 1, Part: 30}}
 
 func c10Trees() []*Recipe {
 	paths := []PathSpec{{Path: "a.example/d", Name: "d"}, {Path: "b.example/d", Name: "d"}, {Path: "fmt", Name: "fmt", Std: true}}
@@ -124,18 +124,32 @@ func (propC10) GenAt(index int, seed uint64, tier string) *Case {
 	if r.Chance(0.15) {
 		rec.Frags = append(rec.Frags, &Node{K: "bad"})
 	}
+	big := r.Chance(0.06)
+	if big {
+		// outputs far beyond any internal chunk size
+		n := r.Pick2(33000, 40000, 70000, 140000)
+		rec.Ops = append(rec.Ops, Op{K: "add", Node: &Node{K: "var", S: g.newID(), N: []*Node{{K: "bigstr", I: n}}}})
+		rec.Frags = append([]*Node{{K: "define", S: g.newID(), N: []*Node{{K: "bigstr", I: n}}}}, rec.Frags...)
+	}
 	wplan := func() *WriterPlan {
 		if r.Chance(0.45) {
 			return nil
 		}
-		return &WriterPlan{FailAt: r.Range(1, 3), Kind: r.Pick([]string{"err", "short"})}
+		if r.Chance(0.12) {
+			return &WriterPlan{Reenter: true}
+		}
+		k := r.Range(1, 3)
+		if big {
+			k = r.Range(1, 5)
+		}
+		return &WriterPlan{FailAt: k, Kind: r.Pick([]string{"err", "short"})}
 	}
 	for i := r.Range(1, 3); i > 0; i-- {
 		switch x := r.Intn(10); {
 		case x < 3:
 			rec.Ops = append(rec.Ops, Op{K: "render", W: wplan()})
 		case x < 6:
-			f := &FSPlan{Target: r.Pick(c10Targets)}
+			f := &FSPlan{Target: r.Pick(c10Targets), Part: r.Pick2(0, 0, 3, 10, 50)}
 			if r.Chance(0.45) {
 				f.Inject = r.Pick([]string{"eacces", "enospc", "eio"})
 				f.At = r.Range(1, 2)
@@ -143,7 +157,11 @@ func (propC10) GenAt(index int, seed uint64, tier string) *Case {
 			}
 			rec.Ops = append(rec.Ops, Op{K: "save", F: f})
 		case x < 7:
-			rec.Ops = append(rec.Ops, Op{K: "render_frag", I: r.Intn(8), W: wplan()})
+			fi := r.Intn(8)
+			if big && r.Chance(0.7) {
+				fi = 0
+			}
+			rec.Ops = append(rec.Ops, Op{K: "render_frag", I: fi, W: wplan()})
 		case x < 8:
 			rec.Ops = append(rec.Ops, Op{K: r.Pick([]string{"render_frag_nofile", "render_group_nofile"}), I: r.Intn(8), W: wplan()})
 		case x < 9:
@@ -192,6 +210,8 @@ func targetRows(rows []string, target string) []string {
 
 func faultKind(op *Op, o *Outcome) string {
 	switch {
+	case op.W != nil && op.W.Reenter:
+		return "writer-reenters"
 	case op.W != nil && op.W.FailAt > 0:
 		return fmt.Sprintf("writer-%s@%d", op.W.Kind, op.W.FailAt)
 	case op.F != nil && op.F.Inject != "":
